@@ -150,7 +150,8 @@ def gen_case(rng, tier, g):
                 'latency': [rng.choice([0, 1, 5, 100])
                             for _ in range(rng.randint(1, 3))],
                 'consumers': rng.choice([1, 1, 2]),
-                'prefix': rng.choice(['', 'p: '])}
+                'prefix': rng.choice(['', 'p: ', 'load (100%): ', '%s %d',
+                                      '{0} {x}', 'é: '])}
     table = gen_table(rng, maxrows + 2, nfields=rng.randint(1, 3))
     k = len(table)            # rows including the header
     n = rng.choice([None, 0, 1, max(1, k - 1), k, k + 1, 2])
